@@ -222,6 +222,367 @@ theorem remOf_fst (e : Int) : ∀ (P : List (Nat × Span σ)),
       rw [this]
       exact (remOf_fst e P).cons _
 
+theorem mem_remOf {e : Int} {P : List (Nat × Span σ)} {d : Nat × Span σ} (hd : d ∈ P.filterMap (remOf e)) :
+    ∃ p ∈ P, e < p.2.stop ∧ d = (p.1, ⟨e, p.2.stop, p.2.style⟩) := by
+  obtain ⟨p, hp, hr⟩ := List.mem_filterMap.1 hd
+  refine ⟨p, hp, ?_⟩
+  unfold remOf at hr
+  split at hr
+  · rename_i h; exact ⟨h, by cases hr; rfl⟩
+  · cases hr
+
+theorem todoInv_next_aux (spans : List (Span σ)) (s e : Nat) (hse : s ≤ e) (P R : List (Nat × Span σ))
+    (h : TodoInv spans s (P ++ R))
+    (hP : ∀ q ∈ P, q.2.start < (e : Int)) (hR : ∀ q ∈ R, (e : Int) ≤ q.2.start) :
+    TodoInv spans e ((P.filterMap (remOf (e : Int))).reverse ++ R) := by
+  have hDstart : ∀ d ∈ (P.filterMap (remOf (e : Int))).reverse, d.2.start = (e : Int) := by
+    intro d hd
+    obtain ⟨p, _, _, rfl⟩ := mem_remOf (List.mem_reverse.1 hd)
+    rfl
+  refine ⟨?_, ?_, ?_, ?_⟩
+  · refine List.pairwise_append.2 ⟨?_, (List.pairwise_append.1 h.sorted).2.1, ?_⟩
+    · apply List.pairwise_of_forall_mem_list
+      intro a ha b hb
+      rw [hDstart a ha, hDstart b hb]; exact Int.le_refl _
+    · intro a ha b hb
+      rw [hDstart a ha]; exact hR b hb
+  · intro p hp
+    rcases List.mem_append.1 hp with hp | hp
+    · obtain ⟨q, hq, hlt, rfl⟩ := mem_remOf (List.mem_reverse.1 hp)
+      obtain ⟨o, ho, h1, h2, h3, h4⟩ := h.entry q (List.mem_append_left _ hq)
+      have := hP q hq
+      refine ⟨o, ho, h1, h2, ?_, ?_⟩
+      · simp only []; omega
+      · simp only []; omega
+    · obtain ⟨o, ho, h1, h2, h3, h4⟩ := h.entry p (List.mem_append_right _ hp)
+      have := hR p hp
+      exact ⟨o, ho, h1, h2, by omega, h4⟩
+  · have h0 := h.nodup
+    rw [List.map_append] at h0 ⊢
+    rw [List.map_reverse]
+    refine ((List.reverse_perm _).append_right _).nodup_iff.2 ?_
+    exact List.Nodup.sublist ((remOf_fst _ P).append (List.Sublist.refl _)) h0
+  · intro i o ho hcov
+    obtain ⟨sp, hsp⟩ := h.complete i o ho (by omega)
+    rcases List.mem_append.1 hsp with hsp | hsp
+    · obtain ⟨o', ho', h1, h2, h3, h4⟩ := h.entry _ (List.mem_append_left _ hsp)
+      simp only [] at ho' h1 h2 h3 h4
+      rw [ho] at ho'; cases ho'
+      refine ⟨⟨(e : Int), sp.stop, sp.style⟩, List.mem_append_left _ (List.mem_reverse.2 ?_)⟩
+      refine List.mem_filterMap.2 ⟨(i, sp), hsp, ?_⟩
+      unfold remOf
+      rw [if_pos (by simp only []; omega)]
+    · exact ⟨sp, List.mem_append_right _ hsp⟩
+
+theorem todoInv_next (spans : List (Span σ)) (s e : Nat) (hse : s ≤ e) (todo : List (Nat × Span σ))
+    (h : TodoInv spans s todo) :
+    TodoInv spans e
+      (((todo.takeWhile (fun p => decide (p.2.start < (e : Int)))).filterMap (remOf (e : Int))).reverse ++
+        todo.dropWhile (fun p => decide (p.2.start < (e : Int)))) := by
+  apply todoInv_next_aux spans s e hse
+  · rw [List.takeWhile_append_dropWhile]; exact h
+  · exact takeWhile_lt todo
+  · exact dropWhile_ge todo h.sorted
+
+/-- the spans the loop gives the line `[s, e)` -/
+def lineSpans (s e : Int) (todo : List (Nat × Span σ)) : List (Span σ) :=
+  (Py.sortByKey (fun p => (p.1 : Int)) ((todo.takeWhile (fun p => decide (p.2.start < e))).map (recOf s e))).map (·.2)
+
+theorem mem_lineRecs {s e : Int} {todo : List (Nat × Span σ)} {p : Nat × Span σ}
+    (hp : p ∈ Py.sortByKey (fun p => (p.1 : Int)) ((todo.takeWhile (fun p => decide (p.2.start < e))).map (recOf s e))) :
+    ∃ q ∈ todo, q.2.start < e ∧ p = recOf s e q := by
+  have := (Py.sortByKey_perm _ _).mem_iff.1 hp
+  obtain ⟨q, hq, rfl⟩ := List.mem_map.1 this
+  exact ⟨q, (List.takeWhile_sublist _).subset hq, takeWhile_lt todo q hq, rfl⟩
+
+theorem lineRecs_sorted (spans : List (Span σ)) (s : Nat) (e : Int) (todo : List (Nat × Span σ)) (h : TodoInv spans s todo) :
+    (Py.sortByKey (fun p => (p.1 : Int)) ((todo.takeWhile (fun p => decide (p.2.start < e))).map (recOf (s : Int) e))).Pairwise
+      (fun a c => a.1 < c.1) := by
+  have h1 := Py.sortByKey_sorted (fun p : Nat × Span σ => (p.1 : Int))
+    ((todo.takeWhile (fun p => decide (p.2.start < e))).map (recOf (s : Int) e))
+  have h2 : ((Py.sortByKey (fun p : Nat × Span σ => (p.1 : Int))
+      ((todo.takeWhile (fun p => decide (p.2.start < e))).map (recOf (s : Int) e))).map (·.1)).Nodup := by
+    refine ((Py.sortByKey_perm _ _).map _).nodup_iff.2 ?_
+    rw [List.map_map]
+    have : ((fun x : Nat × Span σ => x.1) ∘ recOf (s : Int) e) = (fun x => x.1) := rfl
+    rw [this]
+    exact List.Nodup.sublist ((List.takeWhile_sublist _).map _) h.nodup
+  rw [List.nodup_iff_pairwise_ne, List.pairwise_map] at h2
+  exact (h1.and h2).imp (fun {a b} hab => by have h3 := hab.1; have h4 := hab.2; omega)
+
+theorem line_spanIds (spans : List (Span σ)) (s e : Nat) (todo : List (Nat × Span σ))
+    (h : TodoInv spans s todo) (k : Nat) (hk : s + k < e) :
+    spanIds (lineSpans (s : Int) (e : Int) todo) k = spanIds spans (s + k) := by
+  unfold lineSpans
+  apply spanIds_indexed k (s + k) spans 0 _ (lineRecs_sorted spans s e todo h)
+  · intro p hp
+    obtain ⟨q, hq, hlt, rfl⟩ := mem_lineRecs hp
+    obtain ⟨o, ho, h1, h2, h3, h4⟩ := h.entry q hq
+    refine ⟨Nat.zero_le _, o, ho, h1, ?_⟩
+    simp only [recOf, Span.covers]
+    congr 1 <;> (apply decide_eq_decide.2; omega)
+  · intro i o ho hc
+    have hc' := (covers_iff o (s + k)).1 hc
+    obtain ⟨sp, hsp⟩ := h.complete i o ho (by omega)
+    obtain ⟨o', ho', h1, h2, h3, h4⟩ := h.entry _ hsp
+    simp only [] at ho' h1 h2 h3 h4
+    rw [ho] at ho'; cases ho'
+    refine ⟨(recOf (s : Int) (e : Int) (i, sp)).2, ?_⟩
+    rw [Nat.zero_add]
+    refine (Py.sortByKey_perm _ _).mem_iff.2 (List.mem_map.2 ⟨(i, sp), ?_, rfl⟩)
+    rw [← List.takeWhile_append_dropWhile (p := fun p : Nat × Span σ => decide (p.2.start < (e : Int))) (l := todo)] at hsp
+    rcases List.mem_append.1 hsp with hsp | hsp
+    · exact hsp
+    · have := dropWhile_ge todo h.sorted _ hsp
+      simp only [] at this
+      omega
+
+theorem line_spansIn (spans : List (Span σ)) (s e : Nat) (todo : List (Nat × Span σ))
+    (h : TodoInv spans s todo) :
+    SpansIn (lineSpans (s : Int) (e : Int) todo) ((e : Int) - (s : Int)) := by
+  intro sp hsp
+  unfold lineSpans at hsp
+  obtain ⟨p, hp, rfl⟩ := List.mem_map.1 hsp
+  obtain ⟨q, hq, hlt, rfl⟩ := mem_lineRecs hp
+  obtain ⟨o, ho, h1, h2, h3, h4⟩ := h.entry q hq
+  simp only [recOf]
+  omega
+
+/-! ### the line ranges and the fresh lines -/
+
+/-- `zip(divide_offsets, divide_offsets[1:])` from offset `s` on -/
+def rangesFrom (s : Nat) : List Nat → Nat → List (Int × Int)
+  | [], n => [((s : Int), (n : Int))]
+  | o :: os, n => ((s : Int), (o : Int)) :: rangesFrom o os n
+
+theorem lineRanges_from (n : Nat) : ∀ (offs : List Nat) (s : Nat),
+    ((s :: offs ++ [n]).map Int.ofNat).zip ((s :: offs ++ [n]).map Int.ofNat).tail = rangesFrom s offs n
+  | [], s => by simp [rangesFrom]
+  | o :: os, s => by
+    have ih := lineRanges_from n os o
+    simp only [List.map_cons, List.tail_cons, List.cons_append, List.zip_cons_cons, rangesFrom] at ih ⊢
+    rw [ih]; rfl
+
+theorem lineRanges_eq (offs : List Nat) (n : Nat) : lineRanges offs n = rangesFrom 0 offs n := by
+  unfold lineRanges
+  exact lineRanges_from n offs 0
+
+/-- a fresh line of `divide` -/
+def lineOf (t : Text σ) (r : Int × Int) : Text σ :=
+  new Variant.repaired (Py.slice t.plain r.1 r.2) t.style [] t.justify t.overflow
+
+theorem newLines_eq (t : Text σ) (ranges : List (Int × Int)) :
+    newLines Variant.repaired t ranges = ranges.map (lineOf t) := rfl
+
+theorem newLines_zip (t : Text σ) : ∀ (ranges : List (Int × Int)),
+    (newLines Variant.repaired t ranges).zip ranges = ranges.map (fun r => (lineOf t r, r))
+  | [] => rfl
+  | r :: rs => by
+    have ih := newLines_zip t rs
+    rw [newLines_eq] at ih ⊢
+    simp only [List.map_cons, List.zip_cons_cons, ih]
+
+theorem lineOf_plain (t : Text σ) (h : Inv t) (s e : Nat) :
+    (lineOf t ((s : Int), (e : Int))).plain = (t.plain.drop s).take (e - s) := by
+  have h1 : (lineOf t ((s : Int), (e : Int))).plain = stripControl (Py.slice t.plain (s : Int) (e : Int)) := rfl
+  rw [h1, slice_nat]
+  apply stripControl_id
+  intro c hc
+  exact h.2.1 c (List.mem_of_mem_drop (List.mem_of_mem_take hc))
+
+/-! ### unfolding `divLines` -/
+
+theorem divLines_nil : ∀ (rest : List (Text σ × Int × Int)), divLines rest [] = rest.map (·.1)
+  | [] => rfl
+  | (line, s, e) :: rest => by simp [divLines]
+
+theorem lineSpans_nil (s e : Int) : lineSpans s e ([] : List (Nat × Span σ)) = [] := rfl
+
+theorem divLines_cons (line : Text σ) (s e : Int) (rest : List (Text σ × Int × Int)) (todo : List (Nat × Span σ))
+    (hl : line.spans = []) :
+    divLines ((line, s, e) :: rest) todo =
+      { line with spans := lineSpans s e todo } ::
+        divLines rest (((todo.takeWhile (fun p => decide (p.2.start < e))).filterMap (remOf e)).reverse ++
+          todo.dropWhile (fun p => decide (p.2.start < e))) := by
+  cases todo with
+  | nil =>
+    simp only [divLines, List.isEmpty_nil, if_true, lineSpans_nil, List.takeWhile_nil, List.filterMap_nil,
+      List.reverse_nil, List.dropWhile_nil, List.append_nil, divLines_nil]
+    cases line
+    simp only [] at hl
+    subst hl; rfl
+  | cons p ps =>
+    rw [divLines]
+    simp only [List.isEmpty_cons, Bool.false_eq_true, if_false, divLineLoop_eq, List.nil_append]
+    rfl
+
+/-! ### one divided line -/
+
+theorem line_spec (t : Text σ) (h : Inv t) (s e : Nat) (hse : s ≤ e) (he : e ≤ t.plain.length)
+    (todo : List (Nat × Span σ)) (hT : TodoInv t.spans s todo) (l : Text σ)
+    (hl : l = { lineOf t ((s : Int), (e : Int)) with spans := lineSpans (s : Int) (e : Int) todo }) :
+    l.view = (t.view.drop s).take (e - s) ∧ l.plain = (t.plain.drop s).take (e - s) ∧
+      Inv l ∧ l.style = t.style ∧ l.justify = t.justify ∧ l.overflow = t.overflow := by
+  have hp : l.plain = (t.plain.drop s).take (e - s) := by rw [hl]; exact lineOf_plain t h s e
+  have hlen : l.plain.length = e - s := by
+    rw [hp, List.length_take, List.length_drop]; omega
+  have hsp : l.spans = lineSpans (s : Int) (e : Int) todo := by rw [hl]
+  have hst : l.style = t.style := by rw [hl]; rfl
+  refine ⟨?_, hp, ⟨?_, ?_, ?_⟩, hst, by rw [hl]; rfl, by rw [hl]; rfl⟩
+  · rw [view_eq_annot, view_eq_annot, hp]
+    have h1 : (annot t.plain t.effStyle 0).drop s = annot (t.plain.drop s) t.effStyle (0 + s) :=
+      (annot_drop t.plain t.effStyle 0 s).symm
+    rw [h1, ← annot_take, annot_shift]
+    apply annot_congr
+    intro i _ hi
+    rw [← hp, hlen] at hi
+    simp only [effStyle, hst, hsp]
+    rw [line_spanIds t.spans s e todo hT i (by omega), Nat.add_comm]
+  · have : l.length = ((l.plain.length : Nat) : Int) := by rw [hl]; rfl
+    exact this
+  · rw [hl]; exact stripControl_noCtl _
+  · have hlen' : l.length = (e : Int) - (s : Int) := by
+      have : l.length = ((l.plain.length : Nat) : Int) := by rw [hl]; rfl
+      rw [this, hlen]; omega
+    rw [hsp, hlen']
+    exact line_spansIn t.spans s e todo hT
+
+theorem lineOf_spans (t : Text σ) (r : Int × Int) : (lineOf t r).spans = [] := rfl
+
+/-! ### all lines -/
+
+theorem cons_congr {α : Type} {a b : α} {l m : List α} (h1 : a = b) (h2 : l = m) : a :: l = b :: m := by
+  rw [h1, h2]
+
+
+theorem divLines_spec (t : Text σ) (h : Inv t) : ∀ (offs : List Nat) (s : Nat) (todo : List (Nat × Span σ)),
+    TodoInv t.spans s todo → AscFrom s offs → (∀ o ∈ offs, o ≤ t.plain.length) → s ≤ t.plain.length →
+    (divLines ((rangesFrom s offs t.plain.length).map (fun r => (lineOf t r, r))) todo).map view
+        = piecesFrom s offs t.view ∧
+    (divLines ((rangesFrom s offs t.plain.length).map (fun r => (lineOf t r, r))) todo).map (·.plain)
+        = piecesFrom s offs t.plain ∧
+    ∀ l ∈ divLines ((rangesFrom s offs t.plain.length).map (fun r => (lineOf t r, r))) todo,
+      Inv l ∧ l.style = t.style ∧ l.justify = t.justify ∧ l.overflow = t.overflow
+  | [], s, todo, hT, _, _, hs => by
+    simp only [rangesFrom, List.map_cons, List.map_nil]
+    rw [divLines_cons _ _ _ _ _ (lineOf_spans t _)]
+    obtain ⟨h1, h2, h3⟩ := line_spec t h s t.plain.length hs (Nat.le_refl _) todo hT _ rfl
+    have hvl : t.view.length = t.plain.length := by rw [view_eq_annot, annot_length]
+    rw [List.take_of_length_le (by rw [List.length_drop]; omega)] at h1
+    rw [List.take_of_length_le (by rw [List.length_drop]; omega)] at h2
+    refine ⟨congrArg (· :: []) h1, congrArg (· :: []) h2, ?_⟩
+    intro l hl
+    simp only [divLines, List.mem_singleton] at hl
+    subst hl; exact h3
+  | o :: os, s, todo, hT, hasc, hb, hs => by
+    obtain ⟨hso, hasc'⟩ := hasc
+    have ho : o ≤ t.plain.length := hb o (by simp)
+    simp only [rangesFrom, List.map_cons]
+    rw [divLines_cons _ _ _ _ _ (lineOf_spans t _)]
+    obtain ⟨h1, h2, h3⟩ := line_spec t h s o hso ho todo hT _ rfl
+    obtain ⟨i1, i2, i3⟩ := divLines_spec t h os o _ (todoInv_next t.spans s o hso todo hT) hasc'
+      (fun x hx => hb x (by simp [hx])) ho
+    refine ⟨cons_congr h1 i1, cons_congr h2 i2, ?_⟩
+    intro l hl
+    rcases List.mem_cons.1 hl with rfl | hl
+    · exact h3
+    · exact i3 l hl
+
+/-! ### the initial stack -/
+
+theorem todoInv_init (t : Text σ) (h : Inv t) :
+    TodoInv t.spans 0
+      (Py.sortByKeyDesc (fun (p : Nat × Span σ) => p.2.start) (t.spans.zipIdx.map (fun p => (p.2, p.1)))).reverse := by
+  have hperm := Py.sortByKey_perm (fun (p : Nat × Span σ) => - p.2.start) (t.spans.zipIdx.map (fun p => (p.2, p.1)))
+  have hmem : ∀ p, p ∈ (Py.sortByKeyDesc (fun (p : Nat × Span σ) => p.2.start)
+      (t.spans.zipIdx.map (fun p => (p.2, p.1)))).reverse ↔ t.spans[p.1]? = some p.2 := by
+    intro p
+    rw [List.mem_reverse]
+    unfold Py.sortByKeyDesc
+    rw [hperm.mem_iff, List.mem_map]
+    constructor
+    · rintro ⟨q, hq, rfl⟩
+      exact List.mem_zipIdx_iff_getElem?.1 hq
+    · intro hp
+      exact ⟨(p.2, p.1), List.mem_zipIdx_iff_getElem?.2 hp, rfl⟩
+  refine ⟨?_, ?_, ?_, ?_⟩
+  · rw [List.pairwise_reverse]
+    unfold Py.sortByKeyDesc
+    exact (Py.sortByKey_sorted (fun (p : Nat × Span σ) => - p.2.start) _).imp (fun {a b} hab => by omega)
+  · intro p hp
+    have hp' := (hmem p).1 hp
+    have hin : p.2 ∈ t.spans := List.mem_iff_getElem?.2 ⟨p.1, hp'⟩
+    obtain ⟨h0, h1, _⟩ := h.2.2 p.2 hin
+    exact ⟨p.2, hp', rfl, rfl, by omega, h1⟩
+  · rw [List.map_reverse]
+    refine ((List.reverse_perm _).trans (hperm.map _)).nodup_iff.2 ?_
+    rw [List.map_map]
+    have : ((fun x : Nat × Span σ => x.1) ∘ fun p : Span σ × Nat => (p.2, p.1)) = Prod.snd := rfl
+    rw [this, List.zipIdx_map_snd]
+    exact List.nodup_range' 1
+  · intro i o ho _
+    exact ⟨o, (hmem (i, o)).2 ho⟩
+
+theorem todoInv_nil (s : Nat) : TodoInv ([] : List (Span σ)) s [] :=
+  ⟨List.Pairwise.nil, by simp, by simp, by simp⟩
+
+/-! ### the theorem -/
+
+/-- **`divide` cuts the styled string.**  On the repaired code, dividing a consistent text at ascending
+offsets inside the text yields one line per piece of `pieces offs`, each carrying exactly the characters of
+its piece and, on every character, exactly the effective style (`base :: covering spans, in span order`)
+the character had. -/
+theorem divide_view [BEq σ] (t : Text σ) (offs : List Nat) (h : Inv t)
+    (hs : AscFrom 0 offs) (hb : ∀ o ∈ offs, o ≤ t.plain.length) :
+    ∃ lines, t.divide Variant.repaired offs = .ok lines ∧
+      lines.map Text.view = pieces offs t.view ∧
+      lines.map (·.plain) = pieces offs t.plain ∧
+      (∀ l ∈ lines, Inv l ∧ l.style = t.style ∧ l.justify = t.justify ∧ l.overflow = t.overflow) := by
+  unfold divide
+  cases offs with
+  | nil =>
+    refine ⟨[t], by simp [copy_eq_self t h], by simp [pieces, piecesFrom], by simp [pieces, piecesFrom], ?_⟩
+    intro l hl
+    simp only [List.mem_singleton] at hl
+    subst hl; exact ⟨h, rfl, rfl, rfl⟩
+  | cons o os =>
+    simp only [List.isEmpty_cons, Bool.false_eq_true, if_false]
+    rw [lineRanges_eq, newLines_zip]
+    by_cases hsp : t.spans.isEmpty = true
+    · rw [if_pos hsp]
+      have hnil : t.spans = [] := List.isEmpty_iff.1 hsp
+      have hT : TodoInv t.spans 0 [] := by rw [hnil]; exact todoInv_nil 0
+      have := divLines_spec t h (o :: os) 0 [] hT hs hb (Nat.zero_le _)
+      have hnl : ((rangesFrom 0 (o :: os) t.plain.length).map (fun r => (lineOf t r, r))).map (·.1)
+          = newLines Variant.repaired t (rangesFrom 0 (o :: os) t.plain.length) := by
+        rw [newLines_eq, List.map_map]; rfl
+      rw [divLines_nil, hnl] at this
+      exact ⟨_, rfl, this⟩
+    · rw [if_neg hsp]
+      have : Variant.repaired.divideOrder = false := rfl
+      simp only [this, Bool.false_eq_true, if_false]
+      exact ⟨_, rfl, divLines_spec t h (o :: os) 0 _ (todoInv_init t h) hs hb (Nat.zero_le _)⟩
+
+/-! ### a concrete instance -/
+
+/-- "abcdef" with base style 0 and three overlapping spans (two of them equal as values, one empty) -/
+def exText : Text Nat :=
+  { plain := ['a', 'b', 'c', 'd', 'e', 'f'], length := 6, style := 0
+    spans := [⟨1, 5, 1⟩, ⟨0, 3, 2⟩, ⟨1, 5, 1⟩, ⟨4, 4, 3⟩] }
+
+example : Inv exText := by
+  refine ⟨rfl, by decide, ?_⟩
+  intro sp hsp
+  simp only [exText, List.mem_cons, List.not_mem_nil, or_false] at hsp
+  rcases hsp with rfl | rfl | rfl | rfl <;> decide
+
+example : AscFrom 0 [2, 2, 5] ∧ ∀ o ∈ [2, 2, 5], o ≤ exText.plain.length := by
+  refine ⟨⟨by decide, by decide, by decide, trivial⟩, by decide⟩
+
+example : (exText.divide Variant.repaired [2, 2, 5]).toOption.map (·.map view) =
+    some [[('a', [0, 2]), ('b', [0, 1, 2, 1])], [], [('c', [0, 1, 2, 1]), ('d', [0, 1, 1]), ('e', [0, 1, 1])],
+      [('f', [0])]] := by decide
+
 end Text
 
 end RichModel
